@@ -56,7 +56,7 @@ type Ctx struct {
 	Shard   int
 	NShards int
 	Trace   bool
-	Only    int64 // if >=0: evaluate only this case index (pin-pointing)
+	Only    int64  // if >=0: evaluate only this case index (pin-pointing)
 	Variant string // build variant of this worker binary ("" default, "-purego", ...)
 
 	idx        int64
@@ -177,15 +177,15 @@ func (c *Ctx) Violation(sig, msg string, witness interface{}) {
 }
 
 type workerOut struct {
-	Counters   map[string]int64      `json:"counters"`
-	Violations []*Violation          `json:"violations"`
-	Samples    []interface{}         `json:"samples"`
-	Distinct   map[string][]uint64   `json:"-"`
-	DistinctN  map[string]int64      `json:"distinct_n"`
-	Notes      []string              `json:"notes"`
-	Capped     bool                  `json:"capped"`
-	Cases      int64                 `json:"cases"`
-	Done       bool                  `json:"done"`
+	Counters   map[string]int64    `json:"counters"`
+	Violations []*Violation        `json:"violations"`
+	Samples    []interface{}       `json:"samples"`
+	Distinct   map[string][]uint64 `json:"-"`
+	DistinctN  map[string]int64    `json:"distinct_n"`
+	Notes      []string            `json:"notes"`
+	Capped     bool                `json:"capped"`
+	Cases      int64               `json:"cases"`
+	Done       bool                `json:"done"`
 }
 
 // RunWorker executes check in this process for one shard and writes outfile (+ .d<set> hash files).
